@@ -188,6 +188,9 @@ type runEv struct {
 	Dir     DirProj `json:"dir"`
 	// Src is the source this run saw (differs from the scenario's source after a source change)
 	Src []srcGraph `json:"src"`
+	// ManifestSame: the manifest (generation time aside) equals that of an uninterrupted dump of the same source with
+	// the same options; true when there is no manifest or the scenario changed the source or the options
+	ManifestSame bool `json:"manifest_same"`
 }
 
 type srcGraph struct {
@@ -212,6 +215,31 @@ type scenario struct {
 	// then resume, crashing at K2 (0 = none); then a final resume when K2 > 0.
 	K1, F1, K2 int
 	change     string
+}
+
+var (
+	refMu      sync.Mutex
+	refDigests = map[string]string{}
+)
+
+// referenceDigest: the manifest digest of an uninterrupted dump of the configuration with the given option override
+// ("" when that dump fails: then there is nothing to compare with).
+func referenceDigest(root string, cfg Config, override string) string {
+	key := mustJSON(cfg) + "|" + override
+	refMu.Lock()
+	defer refMu.Unlock()
+	if d, ok := refDigests[key]; ok {
+		return d
+	}
+	dir := filepath.Join(root, fmt.Sprintf("ref%d", len(refDigests)), "out")
+	os.MkdirAll(filepath.Dir(dir), 0o755)
+	defer os.RemoveAll(filepath.Dir(dir))
+	d := ""
+	if r := runChild(cfg, dir, false, 0, 0, 0, false, override); !r.Killed && r.OK {
+		d = Project(dir).ManifestDigest
+	}
+	refDigests[key] = d
+	return d
 }
 
 func (s scenario) run(root string, id int) []any {
@@ -240,8 +268,24 @@ func (s scenario) run(root string, id int) []any {
 			firstOverride, resumeOverride = "scrub=full,salt=first-salt", "scrub=none"
 		}
 	}
+	// a configuration that scrubs does so in every run of the scenario, with one salt (unless the scenario is about
+	// changing exactly that)
+	base := ""
+	if s.cfg.Scrub == "full" && optKind != "salt" && optKind != "scrub" {
+		base = "scrub=full,salt=cfg-salt"
+		join := func(a, b string) string {
+			if b == "" {
+				return a
+			}
+			return a + "," + b
+		}
+		firstOverride, resumeOverride = join(base, firstOverride), join(base, resumeOverride)
+	}
+	ref := referenceDigest(root, s.cfg, base)
+	same := func(p DirProj, changed string) bool { return !p.HasManifest || changed != "none" || ref == "" || p.ManifestDigest == ref }
 	r := runChild(s.cfg, dir, false, s.K1, s.F1, 0, false, firstOverride)
 	ev := runEv{E: "run", Hid: id, Kind: "dump", Changed: "none", CrashAt: s.K1, Point: r.Point, OK: r.OK, Err: r.Err, Dir: Project(dir), Src: src.Graphs}
+	ev.ManifestSame = same(ev.Dir, "none")
 	if r.Killed {
 		ev.How = "crash"
 	} else {
@@ -271,6 +315,7 @@ func (s scenario) run(root string, id int) []any {
 	}
 	r = runChild(s.cfg, dir, true, s.K2, 0, shard, extra, resumeOverride)
 	ev = runEv{E: "run", Hid: id, Kind: "resume", Changed: changed, CrashAt: s.K2, Point: r.Point, OK: r.OK, Err: r.Err, Dir: Project(dir), Src: src.Graphs}
+	ev.ManifestSame = same(ev.Dir, changed)
 	if extra && r.OK {
 		// the resume completed against the changed source: what it wrote is a dump of the source it read
 		g2 := append([]srcGraph{}, src.Graphs...)
@@ -284,8 +329,11 @@ func (s scenario) run(root string, id int) []any {
 	}
 	evs = append(evs, ev)
 	if r.Killed {
-		r = runChild(s.cfg, dir, true, 0, 0, 0, false)
-		evs = append(evs, runEv{E: "run", Hid: id, Kind: "resume", Changed: "none", How: "returned", OK: r.OK, Err: r.Err, Dir: Project(dir), Src: src.Graphs})
+		r = runChild(s.cfg, dir, true, 0, 0, 0, false, base)
+		last := runEv{E: "run", Hid: id, Kind: "resume", Changed: "none", How: "returned", OK: r.OK, Err: r.Err, Dir: Project(dir), Src: src.Graphs}
+		// after a changed source or changed options the final resume is judged like the one before it
+		last.ManifestSame = same(last.Dir, changed)
+		evs = append(evs, last)
 	}
 	return evs
 }
